@@ -82,6 +82,17 @@ def esc (t : String) : String :=
     if c = '%' then "%25" else if c = ' ' then "%20" else if c = '\n' then "%0A" else if c = '\t' then "%09"
     else if c = '\r' then "%0D" else c.toString))
 
+/-- the complete internal state, in the format the harness prints from the hook `verif_snapshot()` -/
+def showSnap (g : G) : String :=
+  let vs := (List.range (cap g)).map (fun v =>
+    let x := g.vs[v]!
+    let p := match x.pers with | .empty => 0 | .stored => 1 | .taken => 2
+    let heap := match x.data with | .vector _ => 1 | .inline _ _ => 0
+    s!"{v}:{x.branch}:{p}:{hexOfBytes x.data.toBytes}:{heap}:" ++ ",".intercalate (x.edges.map (fun e => String.ofList (Lb.print e.1) ++ ">" ++ toString e.2)))
+  let bs := (List.range g.br.size).map (fun b => s!"{b}={showNats (mem g b)}")
+  let ss := (List.range g.st.size).map (fun b => s!"{b}={cnt g b}")
+  s!"ok next={g.next} v " ++ "|".intercalate vs ++ " b " ++ ";".intercalate bs ++ " s " ++ ";".intercalate ss
+
 def showObserve (g : G) : String :=
   "ok " ++ " ".intercalate ((keys g).map (showEntry g))
 
@@ -130,6 +141,12 @@ def execLine2 (w : World) (line : String) : World × String :=
       | some .unmodelled => (w.set b .unmodelled, "unmodelled")
       | none => (w, "bad-op")
     | _, _ => (w, "bad-op")
+  | ["snap", h] =>
+    match (parseHandle h).bind w.get with
+    | some (.live g) => (w, (showSnap g).replace " " "_")
+    | some .dead => (w, "dead")
+    | some .unmodelled => (w, "unmodelled")
+    | none => (w, "bad-op")
   | ["observe", h] =>
     match parseHandle h with
     | some a =>
